@@ -11,6 +11,7 @@ import (
 	"testing/synctest"
 	"time"
 
+	"github.com/AdguardTeam/AdGuardDNS/internal/dnsmsg"
 	"github.com/AdguardTeam/AdGuardDNS/internal/dnsserver/zzverif/vdns"
 	"github.com/AdguardTeam/AdGuardDNS/internal/dnsserver/zzverif/vrt"
 	"github.com/miekg/dns"
@@ -52,7 +53,9 @@ var c04eAlphabet = []c04eEvent{
 type c04eCase struct {
 	Kind     string `json:"kind"`
 	Override bool   `json:"override_min_ttl_20s"`
-	Events   []int  `json:"events"`
+	// MinTTL, when set, replaces the 20 s minimum TTL of the cache.
+	MinTTL float64 `json:"min_ttl_s,omitempty"`
+	Events []int   `json:"events"`
 }
 
 func c04eUncacheable(src *dns.Msg) bool {
@@ -101,6 +104,10 @@ func c04eSig(m *dns.Msg) string {
 }
 
 func c04eRun(r *vrt.Run, c c04eCase) (fs []vrt.Finding) {
+	if c.MinTTL > 0 {
+		defer func(d time.Duration) { ecsMinTTL = d }(ecsMinTTL)
+		ecsMinTTL = time.Duration(c.MinTTL * float64(time.Second))
+	}
 	rig := ecsNewRig(c.Kind, c.Override)
 	var obs []string
 	zeroAsked := map[string]bool{}
@@ -200,7 +207,10 @@ func c04eRun(r *vrt.Run, c c04eCase) (fs []vrt.Finding) {
 			}
 		}
 		if src.resp.Rcode == dns.RcodeServerFailure {
-			maxOrig = math.Max(maxOrig, 300)
+			// "Short-lived SERVFAIL": whatever its records say and whatever
+			// the minimum-TTL override is, a SERVFAIL lives for at most
+			// dnsmsg.ServFailMaxCacheTTL seconds.
+			maxOrig = dnsmsg.ServFailMaxCacheTTL
 		}
 		if age > maxOrig+1e-6 {
 			return vrt.F("ecs/served-after-expiry", "answer %s served from cache at age %.2fs, after the largest TTL (%.0fs) of the stored answer", gs, age, maxOrig)
@@ -229,6 +239,10 @@ func TestVerifC04ECS(t *testing.T) {
 							return
 						}
 						emit(c04eCase{Kind: kind, Override: ovr, Events: append([]int{}, seq...)})
+						if ovr && kind == "servfail" {
+							// A minimum TTL above the SERVFAIL lifetime.
+							emit(c04eCase{Kind: kind, Override: ovr, MinTTL: 45, Events: append([]int{}, seq...)})
+						}
 					})
 				}
 			}
